@@ -78,6 +78,7 @@ var gens = []generator{
 	{file: "CliRotate.lean", src: "cmd/gts/rotate.go (the per-record step)", run: genCliRotate},
 	{file: "CliExtract.lean", src: "cmd/gts/extract.go (containsRegion, the per-record step)", run: genCliExtract},
 	{file: "Locator.lean", src: "locator.go (the locator constructors, tryLocation, AsLocator)", run: genLocator},
+	{file: "GbReaderFacts.lean", src: "seqio/genbank.go, genbank_subparsers.go, insdc.go, reference.go, utils.go (the reader's structure)", run: genGbReaderFacts},
 }
 
 func writeIfChanged(path string, content []byte) (bool, error) {
